@@ -44,9 +44,9 @@ def lookup (n : String) : List (String × Symbol) → Option Symbol
   | (k, s) :: rest => if k = n then some s else lookup n rest
 
 /-- `store[n] = s` -/
-def insert (n : String) (s : Symbol) : List (String × Symbol) → List (String × Symbol)
+def put (n : String) (s : Symbol) : List (String × Symbol) → List (String × Symbol)
   | [] => [(n, s)]
-  | (k, v) :: rest => if k = n then (n, s) :: rest else (k, v) :: insert n s rest
+  | (k, v) :: rest => if k = n then (n, s) :: rest else (k, v) :: put n s rest
 
 /-! ### `nextIndex`, `updateMaxDefs`, `Parent(true)` -/
 
@@ -99,7 +99,7 @@ def define (n : String) : Chain → Symbol × Chain
     let idx := nextIndex (t :: ps)
     let glob := globalCtx (t :: ps)
     let sym : Symbol := ⟨n, if glob then .global else .local, idx, false⟩
-    let t1 := { t with store := insert n sym t.store }
+    let t1 := { t with store := put n sym t.store }
     let c1 := if glob then incRoot (t1 :: ps)
               else { t1 with numDefinition := t1.numDefinition + 1 } :: ps
     (sym, updateMax (idx + 1) c1)
@@ -108,7 +108,7 @@ def defineBuiltin (i : Nat) (n : String) : Chain → Symbol × Chain
   | [] => (⟨n, .builtin, i, false⟩, [])
   | [t] =>
     let sym : Symbol := ⟨n, .builtin, i, false⟩
-    (sym, [{ t with store := insert n sym t.store, builtinSymbols := t.builtinSymbols ++ [sym] }])
+    (sym, [{ t with store := put n sym t.store, builtinSymbols := t.builtinSymbols ++ [sym] }])
   | t :: p :: ps =>
     let r := defineBuiltin i n (p :: ps)
     (r.1, t :: r.2)
@@ -122,7 +122,7 @@ def usable (s : Symbol) (recur : Bool) : Bool :=
 
 def Table.defineFree (t : Table) (orig : Symbol) : Symbol × Table :=
   let s : Symbol := ⟨orig.name, .free, t.freeSymbols.length, false⟩
-  (s, { t with freeSymbols := t.freeSymbols ++ [orig], store := insert orig.name s t.store })
+  (s, { t with freeSymbols := t.freeSymbols ++ [orig], store := put orig.name s t.store })
 
 /-- What `Resolve` does when the current table has no usable entry. -/
 def resolveUp (t : Table) (up : Option (Symbol × Nat) × Chain) : Option (Symbol × Nat) × Chain :=
@@ -137,14 +137,10 @@ def resolveUp (t : Table) (up : Option (Symbol × Nat) × Chain) : Option (Symbo
 /-- `Resolve(name, recur)`: result `(symbol, depth)` and the chain after the `defineFree` calls. -/
 def resolve : Chain → String → Bool → Option (Symbol × Nat) × Chain
   | [], _, _ => (none, [])
-  | [t], n, r =>
+  | t :: ps, n, r =>
     match lookup n t.store with
-    | some s => if usable s r then (some (s, 0), [t]) else (none, [t])
-    | none => (none, [t])
-  | t :: p :: ps, n, r =>
-    match lookup n t.store with
-    | some s => if usable s r then (some (s, 0), t :: p :: ps) else resolveUp t (resolve (p :: ps) n true)
-    | none => resolveUp t (resolve (p :: ps) n true)
+    | some s => if usable s r then (some (s, 0), t :: ps) else resolveUp t (resolve ps n true)
+    | none => resolveUp t (resolve ps n true)
 
 /-! ### `LocalAssigned` marks made by the compiler -/
 
@@ -266,14 +262,53 @@ def Res.rename (σ : String → String) : Res → Res
   | .ok => .ok
   | .nil => .nil
 
-/-! ### the opcode families chosen by scope (compiler.go: `Ident` case, `compileAssign`, `FuncLit`) -/
+/-! ### the opcode families chosen by scope (compiler.go: `Ident` case, `compileAssign`, `FuncLit`)
 
-/-- scope ↦ (load, plain store for `=`/op-assign, store for `:=`, selector store, capture opcode of
-an original with that scope). Empty string: the compiler emits nothing / reports an error. -/
-def scopeOpcodes : List (String × String × String × String × String × String) :=
-  [ ("ScopeGlobal",  "OpGetGlobal",  "OpSetGlobal", "OpSetGlobal",                "OpSetSelGlobal", ""),
-    ("ScopeLocal",   "OpGetLocal",   "OpSetLocal",  "OpDefineLocal|OpSetLocal",   "OpSetSelLocal",  "OpGetLocalPtr"),
-    ("ScopeBuiltin", "OpGetBuiltin", "",            "",                           "",               ""),
-    ("ScopeFree",    "OpGetFree",    "OpSetFree",   "OpSetFree",                  "OpSetSelFree",   "OpGetFreePtr") ]
+Written from the bytecode documentation (GETG/SETG/SETSG, GETL/SETL/DEFL/SETSL, GETF/SETF/SETSF,
+GETLP/GETFP); compared with the tables regenerated from compiler.go in `Props/C11`. Row shape:
+(case label, [(guard, opcode | "error" | "assign", operands)]). -/
+
+abbrev EmitTable := List (String × List (String × String × List String))
+
+def scopeName : Scope → String
+  | .global => "ScopeGlobal" | .local => "ScopeLocal" | .builtin => "ScopeBuiltin" | .free => "ScopeFree"
+
+/-- `Ident`: load by scope, operand = the resolved symbol's index. -/
+def identLoad : EmitTable :=
+  [ ("ScopeGlobal",  [("", "OpGetGlobal",  ["symbol.Index"])]),
+    ("ScopeLocal",   [("", "OpGetLocal",   ["symbol.Index"])]),
+    ("ScopeBuiltin", [("", "OpGetBuiltin", ["symbol.Index"])]),
+    ("ScopeFree",    [("", "OpGetFree",    ["symbol.Index"])]) ]
+
+/-- `compileAssign`: selector store / define / plain store by scope; a local is marked assigned;
+any other scope (builtin) is an error. -/
+def assignStore : EmitTable :=
+  [ ("ScopeGlobal", [("numSel > 0", "OpSetSelGlobal", ["symbol.Index", "numSel"]),
+                     ("!(numSel > 0)", "OpSetGlobal", ["symbol.Index"])]),
+    ("ScopeLocal",  [("numSel > 0", "OpSetSelLocal", ["symbol.Index", "numSel"]),
+                     ("!(numSel > 0) && op == token.Define && !symbol.LocalAssigned", "OpDefineLocal", ["symbol.Index"]),
+                     ("!(numSel > 0) && !(op == token.Define && !symbol.LocalAssigned)", "OpSetLocal", ["symbol.Index"]),
+                     ("", "assign", ["symbol.LocalAssigned = true"])]),
+    ("ScopeFree",   [("numSel > 0", "OpSetSelFree", ["symbol.Index", "numSel"]),
+                     ("!(numSel > 0)", "OpSetFree", ["symbol.Index"])]),
+    ("default",     [("", "error", [])]) ]
+
+/-- `FuncLit`: one pointer load per captured original, by the original's scope; a not yet assigned
+local is first defined as undefined and marked. -/
+def captureLoad : EmitTable :=
+  [ ("ScopeLocal", [("!s.LocalAssigned", "OpNull", []),
+                    ("!s.LocalAssigned", "OpDefineLocal", ["s.Index"]),
+                    ("!s.LocalAssigned", "assign", ["s.LocalAssigned = true"]),
+                    ("", "OpGetLocalPtr", ["s.Index"])]),
+    ("ScopeFree",  [("", "OpGetFreePtr", ["s.Index"])]) ]
+
+def resolveCalls : List String :=
+  ["identLoad: c.symbolTable.Resolve(node.Name, false)", "assignStore: c.symbolTable.Resolve(ident, false)"]
+
+/-- The opcodes a table row can emit for a scope (guards dropped). -/
+def opsFor (tb : EmitTable) (sc : Scope) : List String :=
+  match tb.find? (fun r => r.1 == scopeName sc) with
+  | some r => (r.2.map (fun e => e.2.1)).filter (fun o => o != "assign" && o != "error")
+  | none => []
 
 end Tengo.Model.Symtab
